@@ -109,6 +109,8 @@ func init() {
 	}}
 	groups["present"] = group{gen: func(r *rand.Rand, n int, emit func(Op)) {
 		count := 0
+		fuzzLarge = false // the model recomputes these items: no kilobyte names, no lists of hundreds
+		defer func() { fuzzLarge = true }()
 		genPubFuzz(r, n, func(op Op) {
 			if op["op"] != "pubfuzz" {
 				return
